@@ -59,6 +59,7 @@ SPECS = {
                 rule="(1) direct calls: boundary-directed and hostile messages of all 14 types (absent sub-messages, empty/255/256/70000-byte strings, NUL, invalid UTF-8, malformed addresses) after a wire round trip: ValidateBasic, and GetSigners/GetSignBytes after successful validation, must not panic; (2) key-store files: structurally valid JSON with every parameter varied (version, cipher, kdf, prf, c, dklen in {-2^31..4096}, iv length 0..32, salt, ciphertext, matching / wrong / non-hex MAC), truncated and garbage files, any password, loaded through KeyStore.Load; (3) the pipeline machine (rule in TestC17Pipeline); (4) thorough tier: native go fuzzing of message bytes, query bytes, key-store bytes and composite-key bytes; non-trivial = the input decodes and reaches the entry point",
                 assumptions=["a panic is observed as a Go panic in a direct call or as baseapp's recovered-panic error (codespace undefined, code 111222) through ABCI", "c and dklen are clamped (<= 1024 / <= 4096) so that a slow key derivation is not mistaken for a hang"]),
     "C18": dict(units=[dict(test="TestC18", quick=320000, thorough=16000000, timeout=1800), dict(test="TestC18AolKeys", quick=80000, thorough=2000000, timeout=1800),
+                       dict(test="TestC18Genesis", quick=320, thorough=8000, shards=16, timeout=1800),
                        dict(test="TestC18Grid", kind="plain", quick=1, thorough=1)],
                 floor=0.10, exhaustive=False,
                 rule="rapid-generated pairs of 0-4 component tuples (lengths 0,1,2,254,255,256+,random; contents built from other components' length bytes) related by one boundary move/merge/split/truncate/bit flip, arbitrary and near-valid byte strings for the decoder, the complete length grid {0,1,254,255,256}^k for k<=3 with hostile fill bytes, and the four AOL key types over 1..255-byte addresses, validator-admitted topic names and extreme offsets; oracles: round trip, independent reference encoder, injectivity, prefix-exactness, rejection without truncation, decode-or-error, genesis string round trip; non-trivial = the two tuples differ while their encodings are in a byte-prefix relation or have equal length (pairs), differing tuples (grid), non-20-byte address / 69-70 byte topic / offset > 2^32 (AOL keys); distinct = distinct (Encode(x),Encode(y))",
